@@ -1,28 +1,40 @@
 #!/bin/sh
-# tools/confirm_mutant.sh <PROP> <Mk> : independently confirm a seeded change in its scratch worktree /tmp/mut/<PROP>
-# (suite green with the change; demo fails with it; demo passes without), then store it under /verif/seeded/<PROP>-<Mk>/
-P="$1"; M="$2"; W=/tmp/mut/$P; O=$W/OUT
+# tools/confirm_mutant.sh <PROP> <Mk> : independently confirm a seeded change in a scratch worktree of /repo's current HEAD
+# (/tmp/mut/confirm): the pinned suite stays green with the change; the demonstration fails with it and passes without.
+# Then store it under /verif/seeded/<PROP>-<Mk>/.
+P="$1"; M="$2"; O=/tmp/mut/$P/OUT; W=/tmp/mut/confirm
+[ -d "$W" ] || git -C /repo worktree add -q --detach "$W" HEAD
 cd "$W" || exit 2
+git checkout -q --detach $(git -C /repo rev-parse HEAD) 2>/dev/null
 git checkout -q -- . ; rm -f tests/zz_demo_*.rs
-git apply "$O/$M.diff" || { echo "$P $M: patch does not apply"; exit 3; }
+F="$O/$M.diff"; [ -f "$O/$M.rebased.diff" ] && F="$O/$M.rebased.diff"
+git apply "$F" || { echo "$P $M: patch does not apply"; exit 3; }
+FEAT=""; TC=""
+case "$P-$M" in
+  C14-*) FEAT="--features utf16";;
+  C15-M1) FEAT="--features index-positions";;
+  C15-M2) FEAT="--features utf16";;
+  C20-*) FEAT="--features pattern"; TC="+nightly";;
+esac
 suite=$(cargo test --workspace --no-fail-fast --offline 2>&1 | grep -E "^test result" | awk '{p+=$4; f+=$6} END {print p" passed "f" failed"}')
 cp "$O/${M}_demo.rs" tests/zz_demo_$M.rs
-cargo test --offline --test zz_demo_$M >/tmp/mut/$P-$M-with.log 2>&1; with=$?
-git checkout -q -- . 
-cargo test --offline --test zz_demo_$M >/tmp/mut/$P-$M-without.log 2>&1; without=$?
+cargo $TC test --offline $FEAT --test zz_demo_$M >/tmp/mut/$P-$M-with.log 2>&1; with=$?
+git checkout -q -- src Cargo.toml 2>/dev/null; git checkout -q -- .
+cp "$O/${M}_demo.rs" tests/zz_demo_$M.rs
+cargo $TC test --offline $FEAT --test zz_demo_$M >/tmp/mut/$P-$M-without.log 2>&1; without=$?
 rm -f tests/zz_demo_$M.rs
 echo "$P $M: suite_with_change=[$suite] demo_with_change_exit=$with demo_clean_exit=$without"
 D=/verif/seeded/$P-$M
 mkdir -p $D
-cp "$O/$M.diff" $D/patch.diff; cp "$O/${M}_demo.rs" $D/demo.rs; cp "$O/$M.md" $D/notes.md
-python3 - "$P" "$M" "$suite" "$with" "$without" <<'PY'
+cp "$F" $D/patch.diff; cp "$O/${M}_demo.rs" $D/demo.rs; cp "$O/$M.md" $D/notes.md
+python3 - "$P" "$M" "$suite" "$with" "$without" "$FEAT" "$TC" <<'PY'
 import json,sys
-P,M,suite,w,wo=sys.argv[1:6]
+P,M,suite,w,wo,feat,tc=sys.argv[1:8]
 d=f"/verif/seeded/{P}-{M}"
 notes=open(d+"/notes.md").read()
 json.dump({"property":P,"id":f"{P}-{M}","origin":"independent sub-agent given only the property text and a scratch worktree",
- "needs_to_manifest":notes.strip().split("\n")[0:12],
- "confirmed":{"suite_with_change":suite,"demo_exit_with_change":int(w),"demo_exit_clean":int(wo),
- "commands":["git apply patch.diff","cargo test --workspace --no-fail-fast --offline","cargo test --offline --test zz_demo (with / without the change)"]}},
+ "needs_to_manifest":[l for l in notes.strip().split("\n") if l.strip()][:14],
+ "confirmed":{"base":"scratch worktree of /repo HEAD (hooks + fix commits)","suite_with_change":suite,"demo_exit_with_change":int(w),"demo_exit_clean":int(wo),
+ "commands":["git apply patch.diff","cargo test --workspace --no-fail-fast --offline",f"cargo {tc} test --offline {feat} --test zz_demo_{M}  (with / without the change)".replace("  "," ")]}},
  open(d+"/meta.json","w"),indent=1)
 PY
